@@ -347,8 +347,20 @@ pub fn logs(m: &mut M, r: &mut Rng, n: u64) {
         m.call("elem", "log10", *r.pick(&SP2), Some(5), &[A::R(0)]);
         if i % 3 == 0 {
             // log(x, b) == ln(x) / ln(b)
-            let hb = log_uniform(r, -20, 20);
-            load_near(m, r, 6, hb);
+            // bases: the special ones for which a dedicated routine exists, their neighbours, and generic ones
+            let hb = match r.below(4) {
+                0 => *r.pick(&[2.0, 10.0, 0.5, 4.0, 100.0, 3.0, std::f64::consts::E]),
+                1 => {
+                    let b = *r.pick(&[2.0, 10.0]);
+                    if r.coin() { next_up_mag(b) } else { next_down_mag(b) }
+                }
+                _ => log_uniform(r, -20, 20),
+            };
+            if r.coin() {
+                m.load(6, hb, 0.0);
+            } else {
+                load_near(m, r, 6, hb);
+            }
             m.call("elem", "ln", "inh", Some(7), &[A::R(6)]);
             m.call("arith", "div", "vv", Some(4), &[A::R(1), A::R(7)]);
             m.call("elem", "log", *r.pick(&SP2), Some(5), &[A::R(0), A::R(6)]);
@@ -647,8 +659,43 @@ pub fn angles(m: &mut M, r: &mut Rng, n: u64) {
     let _ = SP_TT;
 }
 
+/// every elementary function once per argument (used for the two-configuration comparison of C11: the
+/// spec only demands identical words from the two builds, so thousands of arguments per second)
+pub fn elem_all(m: &mut M, r: &mut Rng, n: u64) {
+    for i in 0..n {
+        m.group("elem_all");
+        let h = match i % 6 {
+            0 => sgn(r) * tiny_arg(r),
+            1 => sgn(r) * log_uniform(r, -3, 9).min(690.0),
+            2 => sgn(r) * (r.below(1u64 << 53) as f64) * pow2(-53),
+            3 => log_uniform(r, -30, 30),
+            4 => sgn(r) * log_uniform(r, -1, 1),
+            _ => log_uniform(r, -1000, 900),
+        };
+        load_near(m, r, 0, h);
+        for op in ["exp", "exp2", "exp_m1", "ln", "log2", "log10", "ln_1p", "sqrt", "cbrt", "sin", "cos", "tan", "sin_cos",
+                   "asin", "acos", "atan", "sinh", "cosh", "tanh", "asinh", "acosh", "atanh"] {
+            m.call("elem", op, "inh", Some(1), &[A::R(0)]);
+        }
+        if i % 4 == 0 {
+            let h2 = sgn(r) * log_uniform(r, -3, 3);
+            load_near(m, r, 2, h2);
+            m.call("elem", "hypot", "inh", Some(3), &[A::R(0), A::R(2)]);
+            m.call("elem", "atan2", "inh", Some(3), &[A::R(0), A::R(2)]);
+            m.call("base", "abs", "inh", Some(4), &[A::R(0)]);
+            m.call("elem", "ln", "inh", Some(5), &[A::R(4)]);
+            m.call("elem", "powf", "inh", Some(3), &[A::R(4), A::R(2), A::R(5)]);
+            let k = r.range(-40, 40);
+            m.call("pow", "powi", "inh", Some(3), &[A::R(0), A::I(k < 0, k.unsigned_abs() as u128, "i32")]);
+            m.call("misc", "to_degrees", "inh", Some(3), &[A::R(0)]);
+            m.call("misc", "to_radians", "inh", Some(3), &[A::R(0)]);
+        }
+    }
+}
+
 pub fn run(m: &mut M, r: &mut Rng, family: &str, n: u64) -> bool {
     match family {
+        "elem_all" => elem_all(m, r, n),
         "roots" => roots(m, r, n),
         "powi" => powi(m, r, n),
         "exps" => exps(m, r, n),
